@@ -814,8 +814,15 @@ def targets(tier='quick'):
     T.append(Target('gibbs/compute[fresh]', 'tempo.GibbsTempo.compute', scen_gibbs(True), post_gibbs, RG, PROP, replay=rp('gibbs_twice')))
     T.append(Target('gibbs/compute[again]', 'tempo.GibbsTempo.compute', scen_gibbs(False), post_gibbs, RG, PROP, replay=rp('gibbs_twice')))
     RTB = tebd_registry()
-    T.append(Target('tebd/compute[fresh]', 'pt_tebd.PtTebd.compute', scen_tebd(True), post_tebd, RTB, PROP, replay=rp('tebd_split')))
-    T.append(Target('tebd/compute[continue]', 'pt_tebd.PtTebd.compute', scen_tebd(False), post_tebd, RTB, PROP, replay=rp('tebd_split')))
+    for fresh in (True, False):
+        t = Target('tebd/compute[%s]' % ('fresh' if fresh else 'continue'), 'pt_tebd.PtTebd.compute', scen_tebd(fresh), post_tebd, RTB, PROP, replay=rp('tebd_split'))
+        # WHERE inside a step the controls and records sit is C18's contract (tebd/step-structure); the splitting argument of this
+        # property (and the restart lemma below) take it as a premise: if it fails, C18 reports it and C14 falls back to its bounded
+        # native checks instead of claiming a violation of its own
+        t.premise = lambda name: name.startswith(('tebd-loop/init/self._t_mps', 'tebd-loop/preserve/self._t_mps', 'tebd-loop/init/self._results',
+                                                  'tebd-loop/preserve/self._results', 'tebd/chain-canonical'))
+        t.premise_owner = 'C18 tebd/step-structure'
+        T.append(t)
     # the back end's side of the PtTebd contract used above ("compute_traces(step) makes the traces those of the CURRENT chain"):
     # real PtTebdBackend code on free tensors, with an observer query before the chain changes
     from . import c10
